@@ -16,7 +16,7 @@ from sim import core
 from sim.core import RunResult
 
 ID = "C18"
-TIERS = {"quick": 2500, "thorough": 60000}
+TIERS = {"quick": 20000, "thorough": 300000}
 RULE = (
     "each run = one seeded configuration (board 1x1..5x5, min/max block count and size each possibly unset and drawn around a "
     "feasible target partition, initial_blocks absent / the target / another full partition, allow_unmet_constraints_first on/off, "
